@@ -894,6 +894,9 @@ mut("C03", "mutations_handler_returns_before_flush", "apply_mutations returns ri
 
 /// Borrowed resources"""))
 
+mutp("C10", "seeded_c10c_only_first_edge_removed", "remove_relation removes only the first matching edge although adding creates parallel edges (seeded change c10c)",
+     ["C10.R5/remove_relation/undoes-every-add"], "seeded/c10c/patch.diff")
+
 # first-sight completeness (shared rule: C07.R6 / C03.R7 / C08.R6)
 mut("C07", "seeded_c07a_rate_limited_components_skipped", "rate-limited components are skipped before the per-client pass unless just added (late-authorized clients never get them)", ["C07.R6/collect_changes/every-component-reaches-clients"],
     ("src/server.rs", """                let ctx = SerializeCtx {
@@ -1592,5 +1595,24 @@ benign("d12_alternative_repair_sweep_before_collect", "removals of despawned ent
     }
     collect_mappings(&mut serialized, &mut clients)?;
     collect_despawns("""))
+
+benign("relation_edges_removed_in_while_let", "remove_relation removes matching edges one by one, re-querying until none is left",
+    ("src/server/related_entities.rs", """        self.remove_buffer.extend(
+            self.graph
+                .edges_connecting(source_node, target_node)
+                .filter(|e| *e.weight() == type_id)
+                .map(|e| e.id()),
+        );
+
+        for edge in self.remove_buffer.drain(..) {
+            self.graph.remove_edge(edge);
+        }""", """        while let Some(edge) = self
+            .graph
+            .edges_connecting(source_node, target_node)
+            .find(|e| *e.weight() == type_id)
+            .map(|e| e.id())
+        {
+            self.graph.remove_edge(edge);
+        }"""))
 
 BENIGN = B
